@@ -1400,3 +1400,27 @@ DATA_PREFIXES = ('[', 'std::vec::Vec<', 'u8', 'u16', 'u32', 'u64', 'u128', 'usiz
 
 def is_data_type(ty):
     return ty.startswith(DATA_PREFIXES)
+
+
+def const_eval(body, op, depth=0):
+    """integer value of an operand if it is computed from constants only (consts, casts, + - * | & << >>), else None"""
+    if depth > 10:
+        return None
+    e = op if isinstance(op, tuple) else expr_of(body, op)
+    k = e[0]
+    if k == 'const':
+        return e[1]
+    if k == 'cast':
+        return const_eval(body, e[1], depth + 1)
+    if k == 'binop':
+        a = const_eval(body, e[2], depth + 1)
+        b = const_eval(body, e[3], depth + 1)
+        if a is None or b is None:
+            return None
+        o = e[1].replace('Unchecked', '')
+        try:
+            return {'Add': a + b, 'Sub': a - b, 'Mul': a * b, 'BitOr': a | b, 'BitAnd': a & b, 'BitXor': a ^ b,
+                    'Shl': a << b, 'Shr': a >> b, 'Div': a // b if b else None, 'Rem': a % b if b else None}.get(o)
+        except Exception:
+            return None
+    return None
